@@ -126,10 +126,10 @@ fn pa126_obs(variant: &str, req: i32, rf: Option<u32>) -> String {
         let bus = Bus::new(Proto::Sx126x, 0x00);
         let m = rf.map(mp);
         let r = match variant.as_str() {
-            "sx1261" => block_on(sx126x(&bus, lora_phy::sx126x::Sx1261).set_tx_power_and_ramp_time(req, m.as_ref(), true)),
-            "sx1262" => block_on(sx126x(&bus, lora_phy::sx126x::Sx1262).set_tx_power_and_ramp_time(req, m.as_ref(), true)),
-            "stm32wl-lp" => block_on(sx126x(&bus, lora_phy::sx126x::Stm32wl { use_high_power_pa: false }).set_tx_power_and_ramp_time(req, m.as_ref(), true)),
-            "stm32wl-hp" => block_on(sx126x(&bus, lora_phy::sx126x::Stm32wl { use_high_power_pa: true }).set_tx_power_and_ramp_time(req, m.as_ref(), true)),
+            "sx1261" => block_on(sx126x(&bus, lora_phy::sx126x::Sx1261, false).set_tx_power_and_ramp_time(req, m.as_ref(), true)),
+            "sx1262" => block_on(sx126x(&bus, lora_phy::sx126x::Sx1262, false).set_tx_power_and_ramp_time(req, m.as_ref(), true)),
+            "stm32wl-lp" => block_on(sx126x(&bus, lora_phy::sx126x::Stm32wl { use_high_power_pa: false }, false).set_tx_power_and_ramp_time(req, m.as_ref(), true)),
+            "stm32wl-hp" => block_on(sx126x(&bus, lora_phy::sx126x::Stm32wl { use_high_power_pa: true }, false).set_tx_power_and_ramp_time(req, m.as_ref(), true)),
             _ => return "bad-op".to_string(),
         };
         if r.is_err() {
@@ -149,8 +149,8 @@ fn pa127_obs(chip: &str, boost: bool, req: i32) -> String {
     guarded(move || {
         let bus = Bus::new(Proto::Sx127x, 0x00);
         let r = match chip.as_str() {
-            "sx1276" => block_on(sx1276(&bus, boost).set_tx_power_and_ramp_time(req, None, true)),
-            "sx1272" => block_on(sx1272(&bus, boost).set_tx_power_and_ramp_time(req, None, true)),
+            "sx1276" => block_on(sx1276(&bus, boost, false).set_tx_power_and_ramp_time(req, None, true)),
+            "sx1272" => block_on(sx1272(&bus, boost, false).set_tx_power_and_ramp_time(req, None, true)),
             _ => return "bad-op".to_string(),
         };
         if r.is_err() {
@@ -169,7 +169,7 @@ fn pa127_obs(chip: &str, boost: bool, req: i32) -> String {
 fn symb126_obs(n: u16) -> String {
     guarded(move || {
         let bus = Bus::new(Proto::Sx126x, 0x00);
-        let r = block_on(sx126x(&bus, lora_phy::sx126x::Sx1262).do_rx(RxMode::Single(n)));
+        let r = block_on(sx126x(&bus, lora_phy::sx126x::Sx1262, false).do_rx(RxMode::Single(n)));
         if r.is_err() {
             return "ERR".to_string();
         }
@@ -186,8 +186,8 @@ fn symb127_obs(chip: &str, n: u16, prior: u8) -> String {
     guarded(move || {
         let bus = Bus::new(Proto::Sx127x, prior);
         let r = match chip.as_str() {
-            "sx1276" => block_on(sx1276(&bus, false).do_rx(RxMode::Single(n))),
-            "sx1272" => block_on(sx1272(&bus, false).do_rx(RxMode::Single(n))),
+            "sx1276" => block_on(sx1276(&bus, false, false).do_rx(RxMode::Single(n))),
+            "sx1272" => block_on(sx1272(&bus, false, false).do_rx(RxMode::Single(n))),
             _ => return "bad-op".to_string(),
         };
         if r.is_err() {
@@ -325,7 +325,7 @@ fn pkt126(b0: u8, b1: u8, b2: u8) -> Option<(i64, i64)> {
     guarded(move || {
         let bus = Bus::new(Proto::Sx126x, 0x00);
         bus.borrow_mut().status_payload = vec![b0, b1, b2];
-        let r = block_on(sx126x(&bus, lora_phy::sx126x::Sx1262).get_rx_packet_status());
+        let r = block_on(sx126x(&bus, lora_phy::sx126x::Sx1262, false).get_rx_packet_status());
         r.ok().map(|s| (s.rssi as i64, s.snr as i64))
     })
     .flatten()
@@ -342,7 +342,7 @@ fn rssi126_obs(b0: u8) -> String {
     guarded(move || {
         let bus = Bus::new(Proto::Sx126x, 0x00);
         bus.borrow_mut().status_payload = vec![b0];
-        match block_on(sx126x(&bus, lora_phy::sx126x::Sx1262).get_rssi()) {
+        match block_on(sx126x(&bus, lora_phy::sx126x::Sx1262, false).get_rssi()) {
             Ok(v) => v.to_string(),
             Err(_) => "ERR".into(),
         }
@@ -368,7 +368,7 @@ fn pkt127(chip: &str, snr: u8, rssi: u8, frf: u32) -> Option<(i64, i64)> {
     let chip = chip.to_string();
     guarded(move || {
         let bus = bus127(frf, snr, rssi, 0);
-        let r = if chip == "sx1276" { block_on(sx1276(&bus, false).get_rx_packet_status()) } else { block_on(sx1272(&bus, false).get_rx_packet_status()) };
+        let r = if chip == "sx1276" { block_on(sx1276(&bus, false, false).get_rx_packet_status()) } else { block_on(sx1272(&bus, false, false).get_rx_packet_status()) };
         r.ok().map(|s| (s.rssi as i64, s.snr as i64))
     })
     .flatten()
@@ -385,7 +385,7 @@ fn rssi127_obs(chip: &str, raw: u8, frf: u32) -> String {
     let chip = chip.to_string();
     guarded(move || {
         let bus = bus127(frf, 0, 0, raw);
-        let r = if chip == "sx1276" { block_on(sx1276(&bus, false).get_rssi()) } else { block_on(sx1272(&bus, false).get_rssi()) };
+        let r = if chip == "sx1276" { block_on(sx1276(&bus, false, false).get_rssi()) } else { block_on(sx1272(&bus, false, false).get_rssi()) };
         match r {
             Ok(v) => v.to_string(),
             Err(_) => "ERR".into(),
